@@ -10,6 +10,18 @@ pub fn generate(_a: &Args) -> i32 {
     2
 }
 
+/// a byte string in expected.txt: hex, or z<count>+<hex> = <count> zero bytes followed by the hex bytes
+fn unspec(s: &str) -> Option<Vec<u8>> {
+    if let Some(rest) = s.strip_prefix('z') {
+        let (n, hx) = rest.split_once('+')?;
+        let mut v = vec![0u8; n.parse().ok()?];
+        v.extend_from_slice(&unhex(hx)?);
+        Some(v)
+    } else {
+        unhex(s)
+    }
+}
+
 fn load_expected(p: &Path) -> Option<(Model, Vec<Vec<u8>>, String)> {
     let t = std::fs::read_to_string(p).ok()?;
     let mut m = Model::new();
@@ -20,9 +32,9 @@ fn load_expected(p: &Path) -> Option<(Model, Vec<Vec<u8>>, String)> {
         match p[0] {
             "name" => name = p.get(1).unwrap_or(&"m").to_string(),
             "kv" => {
-                m.insert(unhex(p.get(1)?)?, unhex(p.get(2).unwrap_or(&""))?);
+                m.insert(unspec(p.get(1)?)?, unspec(p.get(2).unwrap_or(&""))?);
             }
-            "absent" => absent.push(unhex(p.get(1).unwrap_or(&""))?),
+            "absent" => absent.push(unspec(p.get(1).unwrap_or(&""))?),
             _ => {}
         }
     }
@@ -38,16 +50,20 @@ fn restore(golden: &Path, to: &Path, name: &str) -> std::io::Result<()> {
             std::fs::copy(golden.join(&f), to.join(&f))?;
         }
     }
-    let sp = golden.join(format!("{name}.htx.sparse"));
-    if sp.exists() {
+    // files kept in sparse form (only the blocks that are not all zeros): the default table, the wide-regime image
+    for ext in ["key", "val", "htx"] {
+        let sp = golden.join(format!("{name}.{ext}.sparse"));
+        if !sp.exists() {
+            continue;
+        }
         use std::io::{Seek, SeekFrom, Write};
         let t = std::fs::read_to_string(sp)?;
-        let mut f = std::fs::File::create(to.join(format!("{name}.htx")))?;
+        let mut f = std::fs::File::create(to.join(format!("{name}.{ext}")))?;
         for l in t.lines() {
             let p: Vec<&str> = l.split(' ').collect();
             match p[0] {
                 "len" => f.set_len(p[1].parse().unwrap_or(0))?,
-                "page" => {
+                "page" | "blk" => {
                     f.seek(SeekFrom::Start(p[1].parse().unwrap_or(0)))?;
                     f.write_all(&unhex(p[2]).unwrap_or_default())?;
                 }
@@ -158,7 +174,8 @@ pub fn run(a: &Args) -> Ctx {
     let mut ctx = Ctx::new("C12", &["C12", "C01", "C02", "C04", "C05", "C06"], &a.replay_dir, &a.shard_name());
     let mut rng = Rng::new(a.shard_seed() ^ 0xC12);
     let ed = edges();
-    let mut dirs: Vec<PathBuf> = match std::fs::read_dir(GOLDEN_DIR) {
+    let golden_dir = std::env::var("ABYVERIF_GOLDEN_DIR").unwrap_or_else(|_| a.get("golden-dir").unwrap_or(GOLDEN_DIR).to_string());
+    let mut dirs: Vec<PathBuf> = match std::fs::read_dir(&golden_dir) {
         Ok(d) => d.filter_map(|e| e.ok()).map(|e| e.path()).filter(|p| p.is_dir()).collect(),
         Err(e) => {
             ctx.inconclusive.push(format!("no golden images: {e}"));
